@@ -254,6 +254,20 @@ fn minmax() {
         chk!(format!("min_by_key!(closure) argument expressions evaluated once: {}", nm), counted!(q, { let v = konst::min_by_key!(pop(&q, &ks, 0), pop(&q, &ks, 1), |x| x.key); (v.id, v.key) }), counted!(q, { let v = std::cmp::min_by_key(pop(&q, &ks, 0), pop(&q, &ks, 1), |x| x.key); (v.id, v.key) }));
         chk!(format!("max_by_key!(closure) argument expressions evaluated once: {}", nm), counted!(q, { let v = konst::max_by_key!(pop(&q, &ks, 0), pop(&q, &ks, 1), |x| x.key); (v.id, v.key) }), counted!(q, { let v = std::cmp::max_by_key(pop(&q, &ks, 0), pop(&q, &ks, 1), |x| x.key); (v.id, v.key) }));
     }}}
+    // the key / comparator may be any function-valued *expression*: evaluated exactly once, like the argument of
+    // std::cmp::min_by_key (a factory that hands out a different function on every call shows a second evaluation)
+    fn key_b(x: &Keyed) -> u8 { 9 - x.key }
+    fn pick_key(c: &Cell<u32>) -> fn(&Keyed) -> u8 { c.set(c.get() + 1); if c.get() == 1 { key_of } else { key_b } }
+    fn by_key_rev(l: &Keyed, r: &Keyed) -> Ordering { r.key.cmp(&l.key) }
+    fn pick_cmp(c: &Cell<u32>) -> fn(&Keyed, &Keyed) -> Ordering { c.set(c.get() + 1); if c.get() == 1 { by_key } else { by_key_rev } }
+    for ka in 0..3u8 { for kb in 0..3u8 {
+        let (a, b) = (Keyed { key: ka, id: 1 }, Keyed { key: kb, id: 2 });
+        let nm = format!("keys ({},{})", ka, kb);
+        chk!(format!("min_by_key!(function expression evaluated once) {}", nm), counted!(c, konst::min_by_key!(a, b, (pick_key(&c))).id), counted!(c, std::cmp::min_by_key(a, b, pick_key(&c)).id));
+        chk!(format!("max_by_key!(function expression evaluated once) {}", nm), counted!(c, konst::max_by_key!(a, b, (pick_key(&c))).id), counted!(c, std::cmp::max_by_key(a, b, pick_key(&c)).id));
+        chk!(format!("min_by!(function expression evaluated once) {}", nm), counted!(c, konst::min_by!(a, b, (pick_cmp(&c))).id), counted!(c, std::cmp::min_by(a, b, pick_cmp(&c)).id));
+        chk!(format!("max_by!(function expression evaluated once) {}", nm), counted!(c, konst::max_by!(a, b, (pick_cmp(&c))).id), counted!(c, std::cmp::max_by(a, b, pick_cmp(&c)).id));
+    }}
     for a in [0u32, 1, u32::MAX] { for b in [0u32, 1, u32::MAX] {
         chk!("min!(u32)", konst::min!(a, b), std::cmp::min(a, b));
         chk!("max!(u32)", konst::max!(a, b), std::cmp::max(a, b));
